@@ -747,6 +747,10 @@ class HSM2Dongle:
             ]:
                 return (False, self.RESPONSE.SIGN.ERROR_BTC_TX)
             return (False, self.RESPONSE.SIGN.ERROR_UNEXPECTED)
+        except OverflowError as e:
+            # Witness script (or transaction) too big for its length prefix
+            self.logger.error("Sign: BTC tx or extra data too big: %s", str(e))
+            return (False, self.RESPONSE.SIGN.ERROR_BTC_TX)
 
         # Step 3. Send transaction receipt
         try:
